@@ -47,6 +47,8 @@ func vhRich(variant int, optMask cfgFlag) (Stack, *nodeConfig) {
 	}
 	if variant&2 != 0 {
 		cfg.mtx = &sync.Mutex{}
+		inner.SetMutex()
+		cexp.SetMutex()
 	}
 	return pre.s, cfg
 }
@@ -169,5 +171,23 @@ func VH_C09_StackPair(p []int) {
 	if cfg.opt&ronly != 0 {
 		vhAssertNodeSame(before, after, "unchanged")
 	}
+	verifReach("end")
+}
+
+// A read-only Stack handed as an ARGUMENT to every method of another,
+// writable Stack must not change either.  p: method index, variant
+func VH_C09_AsArgument(p []int) {
+	m := vhAutoStack[p[0]]
+	verifCase(m.name)
+	ro, cfg := vhRich(p[1], vhOptMask)
+	cfg.opt |= ronly
+	vhSpecial = vhWrapStack(ro, nondetChoice(4))
+	vhAnyLimit = 5
+	vhVarMax = 1
+	other := And().Push("o1", "o2")
+	before := vhSnapDeep(ro, 0)
+	h := other
+	m.callS(&h)
+	vhAssertNodeSame(before, vhSnapDeep(ro, 0), "read-only-argument-unchanged")
 	verifReach("end")
 }
